@@ -422,7 +422,8 @@ def run_conflict(case, res):
 def misc_cases():
     for pos in ("select", "where", "nested", "func_arg", "orderby"):
         for n in (0, 1):
-            yield {"k": "case", "pos": pos, "whens": n}
+            for els in (False, True):
+                yield {"k": "case", "pos": pos, "whens": n, "else": els}
     for stmt in ("select", "insert", "update", "delete", "update_join", "update_from"):
         for what in ("str", "own_field", "foreign_field", "literal", "arith_own", "arith_foreign", "function", "star", "aggregate",
                      "joined_field", "from_field", "arith_mixed", "arith_mixed_swapped", "tuple_mixed",
@@ -449,6 +450,8 @@ def run_case_term(case, res):
     c = Case()
     if case["whens"]:
         c = c.when(t.a == 1, 2)
+    if case.get("else"):
+        c = c.else_(t.b)  # an ELSE branch does not make a CASE without WHEN valid
     pos = case["pos"]
     q = {"select": lambda: Query.from_(t).select(c), "where": lambda: Query.from_(t).select(t.a).where(c == 1),
          "nested": lambda: Query.from_(t).select(Case().when(t.b == 1, c).else_(0)),
